@@ -7,19 +7,21 @@ EXTENDS HttpApi, SequencesExt, Json, IOUtils
 
 VerbDim == Verbs \cup {"Static"}
 PathDim == { <<"lit:/string_literal">>, <<"local">>, <<"pkg">>, <<"imported">>, <<"imported", "lit:endpoint">>,
-             <<"lit:host", "imported", "lit:x/", "local">>, <<"lit:/with/:param/sub">>, <<"pkg", "pkg">> }
+             <<"lit:host", "imported", "lit:x/", "local">>, <<"lit:/with/:param/sub">>, <<"pkg", "pkg">>,
+             <<"shadow">>, <<"shadow", "lit:/tail">> }
 HandlerDim == {"method", "ptrmethod", "func", "importedfunc", "importedmethod", "literal"}
 InputDim == {"none", "int", "struct", "slice", "ptr"}
 QueryDim == { <<>>, <<"plain:q1">>, <<"plain:q1", "plain:q-2">>, <<"bool:my-bool">>, <<"int64:my-int", "bool:flag">>,
               <<"generic:param-name">>, <<"plain:a", "generic:id", "int64:n">> }
-FormDim == { [values |-> <<>>, file |-> "", json |-> ""], [values |-> <<"value_1">>, file |-> "", json |-> ""],
-             [values |-> <<"v1", "v2">>, file |-> "upload", json |-> ""], [values |-> <<>>, file |-> "file_2", json |-> ""],
-             [values |-> <<>>, file |-> "", json |-> "json-field"], [values |-> <<"v">>, file |-> "f", json |-> "meta"] }
+FormDim == { [values |-> <<>>, file |-> "", json |-> "", jsonkind |-> ""], [values |-> <<"value_1">>, file |-> "", json |-> "", jsonkind |-> ""],
+             [values |-> <<"v1", "v2">>, file |-> "upload", json |-> "", jsonkind |-> ""], [values |-> <<>>, file |-> "file_2", json |-> "", jsonkind |-> ""],
+             [values |-> <<>>, file |-> "", json |-> "json-field", jsonkind |-> "struct"], [values |-> <<"v">>, file |-> "f", json |-> "meta", jsonkind |-> "struct"],
+             [values |-> <<>>, file |-> "", json |-> "label", jsonkind |-> "string"], [values |-> <<"w">>, file |-> "", json |-> "note", jsonkind |-> "string"] }
 RetDim == {"none", "json", "jsonlit", "pretty", "blob"}
 
 (* the contract is a product of independent parts: the registration side is varied with a fixed
    body, and the body side with a fixed registration (the full product has 252 000 elements) *)
-NoForm == [values |-> <<>>, file |-> "", json |-> ""]
+NoForm == [values |-> <<>>, file |-> "", json |-> "", jsonkind |-> ""]
 Regs == [verb : VerbDim, path : PathDim, handler : HandlerDim, input : {"struct"}, query : {<<"plain:q1">>}, form : {NoForm}, ret : {"json"}]
         \cup [verb : {"POST"}, path : {<<"pkg">>}, handler : {"method"}, input : InputDim, query : QueryDim, form : FormDim, ret : RetDim]
 
